@@ -299,6 +299,9 @@ def check(model, tier):
 
     # a relation diagnosed as doomed because its predicate is trivially false must also compile to a query without rows
     _sqlemit.r_flattened_predicate(ctx, "R16.7")
+    from ..rules import mergeeval as _mergeeval
+
+    _mergeeval.r05_9_merge_semantics(ctx, rule="R16.8")  # the tree diagnosed must be the one that was asked for (zero-limit slices survive merging)
     run.assume("max_rows == 0 is truthful (C06 is not decided statically)")
     run.assume("the executor answers truthfully")
     from ..rules.foundation import run_foundation
